@@ -194,7 +194,12 @@ func runLimitsWorld(rc *RunCtx) *Outcome {
 			pulled, overCap = g.pulled, g.overCap // between was not reached (the first loop panicked)
 		}
 	} else {
-		obs, _ = runConn(g, buf, limit)
+		if ch.Chance(1, 3, "on the second attempt of the connection") {
+			obs = runConnWarm(g, buf, limit)
+			o.probe("stream served on a reconnection")
+		} else {
+			obs, _ = runConn(g, buf, limit)
+		}
 		pulled, overCap = g.pulled, g.overCap
 	}
 	if obs.panicked != nil {
